@@ -187,6 +187,41 @@ def run (ctx):
     hb = [n for n in g.nodes if n.kind == 'break' and any(m is after for m, l in n.succ) and any('event.halt' in f and f.endswith(':truthy') for f in q.fact_strs(g, n))]
     ctx.ob('R-DOM', raise_, "setting event.halt stops delivery", bool(hb), "break under event.halt" if hb else "no break guarded by event.halt", raise_, 'D3')
 
+  # the documented shortcut values handlers return (EventContinue, EventHalt, EventRemove, EventHaltAndRemove) and EventReturn(halt,
+  # remove): evaluated, and read by the protocol above, each means what its name says - a bare False, for one, means "remove me"
+  er = mod.funcs.get('EventReturn')
+  if er is not None:
+    ctx.analysed(er); ge_ = q.cfg_of(er)
+    def er_value (halt, remove):
+      vals = set()
+      for p_, e_ in q.paths_under(repo, mod, ge_, q.Env({er.params[0]: halt, er.params[1]: remove}), ge_.entry, [n_ for n_ in ge_.nodes if n_.kind == 'return'], None, limit=20):
+        try: vals.add(q.eval_env2(repo, mod, p_[-1].ast.value, e_, None))
+        except Exception: vals.add('?')
+      return list(vals)[0] if len(vals) == 1 else '?'
+    def meaning (v):
+      # what raiseEvent's protocol (decided case by case above) does with this value: (halt, remove)
+      if v is None: return (False, False)
+      if v is True: return (True, False)
+      if v is False: return (False, True)
+      if isinstance(v, tuple): return ((len(v) == 0) or bool(v[0]), len(v) >= 2 and v[1] == True)
+      return '?'
+    NAMES = {'EventContinue': (False, False), 'EventHalt': (True, False), 'EventRemove': (False, True), 'EventHaltAndRemove': (True, True)}
+    n_sh = 0
+    for nm_, want_ in NAMES.items():
+      a_ = mod.assigns.get(nm_)
+      if not (isinstance(a_, ast.Call) and call_name(a_) == 'EventReturn'): continue
+      kw_ = dict((k_.arg, k_.value) for k_ in a_.keywords)
+      try:
+        h_ = bool(q.eval_env2(repo, mod, kw_['halt'], q.Env(), None)) if 'halt' in kw_ else (bool(q.eval_env2(repo, mod, a_.args[0], q.Env(), None)) if a_.args else False)
+        r_ = bool(q.eval_env2(repo, mod, kw_['remove'], q.Env(), None)) if 'remove' in kw_ else (bool(q.eval_env2(repo, mod, a_.args[1], q.Env(), None)) if len(a_.args) > 1 else False)
+      except Exception: continue
+      v_ = er_value(h_, r_); n_sh += 1
+      if v_ == '?' or meaning(v_) == '?':
+        ctx.undecided('R-AGREE', mod.short + ':' + nm_, "the shortcut value means what its name says", "EventReturn(%s, %s) not evaluable" % (h_, r_), (mod, a_), 'D3'); continue
+      ctx.ob('R-AGREE', mod.short + ':' + nm_, "the shortcut value means what its name says", meaning(v_) == want_, "%r -> halt=%s remove=%s" % ((v_,) + want_) if meaning(v_) == want_ else
+             "%s evaluates to %r, which the dispatch loop reads as halt=%s, remove=%s (its name says halt=%s, remove=%s): a handler returning it is %s"
+             % ((nm_, v_) + meaning(v_) + want_ + ("unsubscribed although it never asked to be - it is not invoked on later raises" if meaning(v_)[1] and not want_[1] else "treated differently from what it asked for",)), (mod, a_), 'D3')
+    ctx.floor('handler return shortcuts evaluated', n_sh, 4)
   # ---- D4 removeListener ---------------------------------------------------------------
   ub = defs.use_before_def(rem); un = defs.undefined_names(repo, rem)
   for nm, node, path in ub:
